@@ -4,36 +4,36 @@ TRUST = ("Trusted: go/parser, go/types, x/tools v0.29.0; the idiom tables frozen
          "Only the named structural clauses are decided, for all paths/sites; value-level behaviour is not.")
 
 claim("C01",
-      'AST unification of generated twins; SSA parameter write-set summaries (points-to + VTA call graph); stride-unit dataflow lint; assembly access-window/unit lint',
-      "Structural necessary conditions of C01 decided for every function and path of the BLAS packages: every generated (untested) S/C routine is the node-for-node image of its tested D/Z source; the slice operands each of the 142 routines may write equal the BLAS standard's outputs (read-only operands unchanged, kernels analysed through their noasm bodies); no operand is indexed, sliced, length-checked or forwarded with another operand's ld/inc, strided indices are anchored at the negative-increment start offset, matrix rows are addressed through ld; loop counters and parameters are used; in the assembly kernels per-iteration access windows and byte/element units are consistent. Arithmetic correctness of the loop nests, rounding and the assembly's arithmetic are NOT decided.",
+      'AST unification of generated twins; SSA parameter write-set summaries (points-to + VTA call graph); stride-unit/extent dataflow lint; transpose-flag equivalence lint; assembly access-window/unit lint',
+      "Structural necessary conditions of C01 decided for every function and path of the BLAS packages: every generated (untested) S/C routine is the node-for-node image of its tested D/Z source; the slice operands each of the 142 routines may write equal the BLAS standard's outputs (read-only operands unchanged, kernels analysed through their noasm bodies); no operand is indexed, sliced, length-checked or forwarded with another operand's ld/inc, strided indices are anchored at the negative-increment start offset, matrix rows are addressed through ld; the element count of a vector is one quantity in its length check, start offset and kernel loop bound; no real routine or wrapper that accepts ConjTrans distinguishes it from Trans; loop counters and parameters are used; in the assembly kernels per-iteration access windows and byte/element units are consistent. Arithmetic correctness of the loop nests, rounding and the assembly's arithmetic are NOT decided.",
       TRUST, 'DESIGN.md §3.2, §4 C01')
 claim("C02",
-      "custom CFG path analysis (workspace-query purity, validate-before-write) + stride-unit dataflow lint",
-      "Structural necessary conditions of C02 decided for all paths of the anchored lapack/gonum routines in both workspace modes: a query (lwork == -1) stores only to work[0] and calls only queries/scalar helpers; arguments are validated before any operand write; every slice use is preceded by a branch on its length; no operand is addressed with a foreign leading dimension. Backward stability and factor structure are NOT decided.",
+      "custom CFG path analysis (workspace-query purity, validate-before-write, status flow) + stride-unit dataflow lint (incl. vector increments forwarded to BLAS, workspace block layout)",
+      "Structural necessary conditions of C02 decided for all paths of the anchored lapack/gonum routines in both workspace modes: a query (lwork == -1) stores only to work[0] and calls only queries/scalar helpers; arguments are validated before any operand write; every slice use is preceded by a branch on its length; no operand is addressed with a foreign leading dimension, a strided vector handed to BLAS keeps its own increment, a workspace block is used with one leading dimension and the next region starts that many rows on; callee statuses are used and failure is never reported as success. Backward stability and factor structure are NOT decided.",
       TRUST, "DESIGN.md §3.2, §3.3, §4 C02")
 claim("C03",
-      "custom CFG path analysis (workspace-query purity, validate-before-write) + stride-unit dataflow lint",
+      "custom CFG path analysis (workspace-query purity, validate-before-write, status flow) + stride-unit dataflow lint (incl. workspace block layout)",
       "The same rule set as C02 on the eigenvalue/Schur/SVD routine files and shared auxiliaries (found and repaired the Dlaln2 ldb/ldx defect and the missing Dgebd2 length check). Orthogonality, residual identities, ordering and convergence are NOT decided.",
       TRUST, "DESIGN.md §3.2, §3.3, §4 C03")
 claim("C04",
-      "custom AST/type dataflow lint (Data/Stride access-path pairing) + AST twin comparison (reuseAs sync pairs, bounds twins) + configuration sweep",
-      "Structural necessary condition of C04 decided for every function of mat: each Data[...] access and each (Data, Stride) pair given to blas64/lapack64 uses the stride of the same matrix, so a strided view is addressed with its own stride on every path. Agreement of dispatch arms with the generic definition is NOT decided.",
+      "custom AST/type dataflow lint (Data/Stride access-path pairing) + AST twin comparison (reuseAs sync pairs, bounds twins) + SSA constant-nil-receiver analysis + configuration sweep",
+      "Structural necessary condition of C04 decided for every function of mat: each Data[...] access and each (Data, Stride) pair given to blas64/lapack64 uses the stride of the same matrix, so a strided view is addressed with its own stride on every path; the receiver-sizing pairs and the bounds/default accessors agree; no slow path (operand without the Raw* fast-path interface) calls a method on a constant nil pointer (found and repaired in Cholesky.SymRankOne). Agreement of dispatch arms with the generic definition is NOT decided.",
       TRUST, "DESIGN.md §3.2, §4 C04")
 claim("C07",
-      'custom CFG path analysis of argument-check prologues; stride-unit lint; generated/bounds twin comparison; assembly access-window lint',
-      "The mostly structural property: for all 281 exported BLAS/LAPACK entry points and every prologue path, no argument-check panic is reachable after an operand write, every slice use is preceded on all paths by a branch on its length, every int/flag/slice parameter is validated (exceptions frozen with reasons), optional operands are used only under their flag, a workspace query touches only work[0]; the generated routines' prologues mirror the tested ones; no operand is addressed with another's stride; in the 56 assembly kernels every loop's memory accesses stay inside the elements the iteration advances over. Exactness of each extent polynomial and the assembly's loop guards are NOT decided.",
+      'custom CFG path analysis of argument-check prologues (BLAS, LAPACK, mat); stride-unit lint; generated/bounds twin comparison; assembly access-window lint (loops and tails)',
+      "The mostly structural property: for all 281 exported BLAS/LAPACK entry points and every prologue path, no argument-check panic is reachable after an operand write, every slice use is preceded on all paths by a branch on its length, every int/flag/slice parameter is validated (exceptions frozen with reasons), optional operands are used only under their flag, a workspace query touches only work[0]; the generated routines' prologues mirror the tested ones; no operand is addressed with another's stride; in the 56 assembly kernels every loop's memory accesses stay inside the elements the iteration advances over and every tail block inside the elements that remain; in mat no shape panic is reachable after the receiver was sized or written. Exactness of each extent polynomial and the assembly's loop guards are NOT decided.",
       TRUST, 'DESIGN.md §3.3, §4 C07')
 claim("C08",
-      'configuration sweep through the type checker + exported-API diff; element-wise AST twin comparison; stride-unit and parameter-use lints; assembly access-window/unit lint',
-      "The 'in every build configuration' clause decided statically: every tag/arch configuration of the packages with build-tag twins type-checks and exports one API; the r3 safe/unsafe 3x3 builders agree element by element; Go kernels address each operand with its own increment and read every parameter; assembly kernels keep per-iteration access windows and byte/element units consistent (found and repaired the amd64 Ger kernels' negative-increment handling, which made the default build disagree with noasm). Equality of assembly or noasm loops with the scalar definitions is NOT decided.",
+      'configuration sweep through the type checker + exported-API diff; element-wise AST twin comparison; precision-sibling exit-guard comparison; stride-unit/extent and parameter-use lints; assembly access-window/unit lint',
+      "The 'in every build configuration' clause decided statically: every tag/arch configuration of the packages with build-tag twins type-checks and exports one API; the r3 safe/unsafe 3x3 builders agree element by element; Go kernels address each operand with its own increment and read every parameter; the float32/complex64 kernels exit early under the same NaN/Inf/zero/empty conditions as their float64/complex128 siblings; assembly kernels keep per-iteration access windows and byte/element units consistent (found and repaired the amd64 Ger kernels' negative-increment handling, which made the default build disagree with noasm). Equality of assembly or noasm loops with the scalar definitions is NOT decided.",
       TRUST, 'DESIGN.md §3.1, §3.11, §4 C08')
 claim("C05",
       'SSA parameter write-set summaries (points-to with escape summaries, VTA call graph); custom CFG must-dataflow (overlap-guard-before-kernel-write)',
       "Both mechanisms of C05 decided statically: no exported mat function or method may write through a matrix-typed parameter other than the receiver or dst (187 parameters, interprocedural); every kernel write of the destination that also reads an operand's raw storage is preceded on every path by an overlap guard, identity edge, isolated workspace or guarded delegation; the overlap predicate's element size matches the element type in the default and safe builds. Three pre-existing unguarded arms are reproduced and recorded as known findings. The overlap predicate's arithmetic is NOT decided.",
       TRUST, 'DESIGN.md §3.5, §4 C05')
 claim("C06",
-      "custom CFG def-use and path analysis of status results (ok/error/Condition discipline)",
-      "The 'reported through ok/error rather than a silently wrong answer' clause decided for every call site and return in mat, lapack64 and lapack/gonum: no LAPACK/mat status is dropped, no success is returned on the path where a callee failed, every solver can return Condition and does so exactly under cond > ConditionTolerance. Reconstruction identities and update formulas are NOT decided.",
+      "custom CFG def-use and path analysis of status results (ok/error/Condition discipline); CFG ordering rule norm-before-factorization; field-completeness lint of update-from-original methods; SSA constant-nil-receiver analysis",
+      "The 'reported through ok/error rather than a silently wrong answer' clause decided for every call site and return in mat, lapack64 and lapack/gonum: no LAPACK/mat status is dropped, no success is returned on the path where a callee failed, every solver can return Condition and does so exactly under cond > ConditionTolerance; the norm used by a condition estimate is taken before the in-place factorization; Clone/Scale/SymRankOne/ExtendVecSym/RankOne rebuild every field of the receiver; no factorization method calls through a constant nil pointer (three defects found and repaired: BandCholesky.Cond, LU.RankOne's ok, Cholesky.SymRankOne). Reconstruction identities and update formulas are NOT decided.",
       TRUST, "DESIGN.md §3.6, §4 C06")
 
 claim("C09",
@@ -41,18 +41,18 @@ claim("C09",
       "The synchronisation structure behind C09 decided at every go statement and every pooled workspace: shared writes are mutex- or WaitGroup-ordered with all other accesses, Add/Done/Wait and close/range are paired, serial and concurrent siblings read the same settings, workspaces are never double-put, used after put or retained. Schedules are not explored and nothing runs; arithmetic tile disjointness and bit-identical sums are NOT decided.",
       TRUST, "DESIGN.md §3.7, §3.8, §4 C09")
 claim("C19",
-      "custom CFG must-pass-through analysis of the Method.Run shutdown protocol with computed helper summaries",
-      "The method-side termination protocol of Minimize decided for all Run implementations and paths: result is drained to closure before operation is closed, operation is closed exactly once on every normal path. Counters, statuses, convergence and LP optimality are NOT decided.",
+      "custom CFG must-pass-through analysis of the Method.Run shutdown protocol with computed helper summaries; CFG must-assign analysis of optimizer Init methods",
+      "The method-side termination protocol of Minimize decided for all Run implementations and paths: result is drained to closure before operation is closed, operation is closed exactly once on every normal path; a state field that an Init/InitDirection/initLocal method assigns on some path is assigned on every returning path, so nothing survives from a previous run. Counters, statuses, convergence and LP optimality are NOT decided.",
       TRUST, "DESIGN.md §3.8, §4 C19")
 
 claim("C12",
-      "custom effect-algebra lint over adjacency mutations (converse closure), CFG pairing rules for ID pools and iterator cursors, configuration sweep",
-      "The mirror-image, ID-recycling and iterator-cursor mechanisms of C12 decided for every method of the 8 map-backed graph types, uid.Set and 30 iterator types in the default and safe builds. Histories are not explored; dense-matrix graphs, Reset, and panic atomicity are NOT decided.",
+      "custom effect-algebra lint over adjacency mutations (converse closure), CFG pairing rules for ID pools and iterator cursors, Weighted-sibling state-update comparison, configuration sweep",
+      "The mirror-image, ID-recycling and iterator-cursor mechanisms of C12 decided for every method of the 8 map-backed graph types, uid.Set and 30 iterator types in the default and safe builds; each iterator method and its Weighted sibling make the same cursor/length updates. Histories are not explored; dense-matrix graphs, Reset, and panic atomicity are NOT decided.",
       TRUST, "DESIGN.md §3.9, §4 C12")
 
 claim("C16",
-      "custom CFG taint/validation analysis of decoders, self-comparison lint, validity-gate must-pass analysis, generated-twin unification",
-      "The decoder-totality mechanisms of C16 decided for all paths of the binary decoders and graph6 accessors: decoded products are overflow-guarded, decoded shift counts/sizes are range-checked, variable-length fields are length-checked, compatibility comparisons are non-trivial, raw accesses are behind IsValid, hll64.go mirrors hll32.go. Round trips, DOT/N-Quads grammars and RDF canonicalisation are NOT decided.",
+      "custom CFG taint/validation analysis of decoders, encoder/decoder field-agreement lint, self-comparison lint, validity-gate must-pass analysis, generated-twin unification",
+      "The decoder-totality mechanisms of C16 decided for all paths of the binary decoders and graph6 accessors: decoded products are overflow-guarded, decoded shift counts/sizes are range-checked, variable-length fields are length-checked, compatibility comparisons are non-trivial, raw accesses are behind IsValid, every field an encoder writes out is stored by the matching decoder (23 codec pairs), hll64.go mirrors hll32.go. Round trips, DOT/N-Quads grammars and RDF canonicalisation are NOT decided.",
       TRUST, "DESIGN.md §3.10, §4 C16")
 claim("C17",
       "custom CFG field-definition analysis of Reset, pointwise/sibling lint over window functions, bounds-twin comparison",
